@@ -817,3 +817,4 @@ def run(chk):
     c18_shared.saved_session_survives_interrupted_start(chk, prop="C18")
     c18_shared.shutdown_with_misbehaving_components(chk, prop="C18")
     c18_shared.state_saved_after_failed_restore(chk, prop="C18")
+    c18_shared.stops_complete_per_instance(chk, prop="C18")
